@@ -145,6 +145,45 @@ def matrix_case(rng, tier, i):
                 kind='matrix/' + kind)
 
 
+# --------------------------------------------------------------------------- integer boundary
+def evaluate_intmin(rp):
+    """integer score matrices that contain the dtype minimum: the code masks picked rows / columns with
+    that very value.  Boundary of the implementation outside the property's quantifier (real masks):
+    only the faithfulness of the model (Model/PermAlign.v greedy_assign_int, theorem
+    C14_greedy_int_min_refuted) is checked here, not bijectivity."""
+    from pb_bss.permutation_alignment import _mapping_from_score_matrix
+    S = pc.ro(rp['score'])
+    K = S.shape[-1]
+    bottom = int(np.iinfo(S.dtype).min)
+    try:
+        mp = _mapping_from_score_matrix(S, 'greedy')
+    except Exception as e:
+        return 'raised %s: %s' % (type(e).__name__, str(e)[:200]), 'intmin:raises', None
+    coq = 'check_assign_int %d %s (%d) %s' % (K, core.zmat(S.tolist()), bottom, core.nlist(np.clip(mp, 0, 99)))
+    if (S > bottom).all() and not pc.is_perm_field(mp, K):
+        return 'integer matrix above the dtype minimum: assignment %s is not a permutation' % mp.tolist(), 'intmin:notperm', coq
+    return None, None, coq
+
+
+def intmin_case(rng, tier, i):
+    K = int(rng.integers(1, 5))
+    dt = [np.int64, np.int32, np.int16][int(rng.integers(0, 3))]
+    lo = np.iinfo(dt).min
+    S = rng.integers(-3, 4, (K, K)).astype(dt)
+    r = rng.random()
+    if r < 0.4:
+        S[rng.random((K, K)) < 0.4] = lo
+    elif r < 0.6:
+        S[:] = lo
+    elif r < 0.8:
+        S = (S.astype(np.int64) + lo + 4).astype(dt)      # all entries just above the minimum
+    rp = {'fn': 'intmin', 'score': S}
+    fail, key, coq = evaluate_intmin(rp)
+    name = 'integer-boundary K=%d %s %s' % (K, np.dtype(dt).name, 'with-min' if (S == lo).any() else 'above-min')
+    return Case(name, coq=coq, pred_fail=fail, key=key, nontrivial=K >= 2, digest_=core.digest(S),
+                sample={'name': name, 'score': core.small(S, 9)}, replay=rp, kind='intmin')
+
+
 # --------------------------------------------------------------------------- apply_mapping
 def evaluate_apply(rp):
     from pb_bss.permutation_alignment import apply_mapping
@@ -428,6 +467,8 @@ def cases(rng, tier):
     out = grid_cases(tier)
     for i in range(25 if q else 250):
         out.append(matrix_case(rng, tier, i))
+    for i in range(8 if q else 80):
+        out.append(intmin_case(rng, tier, i))
     for i in range(12 if q else 120):
         out.append(apply_case(rng, tier, i))
     for i in range(70 if q else 700):
@@ -452,7 +493,7 @@ def search(rng, tier, hints):
     return []
 
 
-EVAL = {'grid': evaluate_grid, 'matrix': evaluate_matrix, 'apply': evaluate_apply, 'aligner': evaluate_aligner,
+EVAL = {'intmin': evaluate_intmin, 'grid': evaluate_grid, 'matrix': evaluate_matrix, 'apply': evaluate_apply, 'aligner': evaluate_aligner,
         'inline': evaluate_inline, 'ipa': evaluate_ipa}
 
 
